@@ -341,6 +341,9 @@ let rec dec_host (s : string) : hostval =
         HSlice (List.map dec_host (List.filter (fun p -> ty p = ty p0 && p.[0] <> 'N') parts)) end
     else HSlice (List.map dec_host parts)
   | 'M' -> HMapIface (List.map (fun p -> match split_top p '=' with [k; v] -> (str_of_string (unhex k), dec_host v) | _ -> failwith "bad map") (split_top (inner s 2) ','))
+  (* a map[interface{}]interface{} with string keys and keys of other kinds, used as the OBJECT of a run only: field lookup
+     considers its string keys and nothing else, so for the model it is its string-keyed part *)
+  | 'J' -> HMapIface (List.map (fun p -> match split_top p '=' with [k; v] -> (str_of_string (unhex k), dec_host v) | _ -> failwith "bad map") (split_top (inner s 2) ','))
   | 'O' ->
     let pairs = List.map (fun p -> match split_top p '=' with [k; v] -> (dec_host k, dec_host v) | _ -> failwith "bad map") (split_top (inner s 3) ',') in
     if s.[1] = '0' then
